@@ -846,8 +846,8 @@ class MaterialIndexer(Indexer):
         other_phases = set(other_phases)
         phase_indexer = self._phase_indexer
         new_phases = [i for i in other_phases if i not in phase_indexer]
-        phases = self._phases
         if new_phases: self._expand_phases(other_phases)
+        phases = self._phases
         scp_data = {i: [] for i in phases} # Same chemicals by phase
         dcp_data = {i: [] for i in phases} # Different chemicals by phase
         for i in other_phases.difference(phases):
